@@ -66,7 +66,7 @@ def check(run, repo, tier):
   cfg, x = fn.cfg, fn.xcfg
   du = DefUse(fn)
   R1 = run.rule("C41-R1", "rows are visited in ascending row id order and the returned id list "
-                "only grows by appending the visited row", floor=3)
+                "only grows by appending the visited row", floor=4)
   R2 = run.rule("C41-R2", "a row is kept exactly when every queried column's stored value is among "
                 "the requested values; unhashable values cannot keep a row or escape", floor=6)
   R3 = run.rule("C41-R3", "a column is emitted exactly when the formulas/private flags allow it and "
@@ -117,12 +117,34 @@ def check(run, repo, tier):
       other_mut.append(n)
   aliased = [n for n in cfg.nodes if n.kind == "stmt" and isinstance(n.stmt, ast.Assign) and
              isinstance(n.stmt.value, ast.Name) and n.stmt.value.id == L]
-  row_loops = [n.stmt for n in cfg.nodes if n.kind == "for" and isinstance(n.stmt.iter, ast.Attribute)
-               and n.stmt.iter.attr == "row_ids" and du.denotes(n.stmt.iter.value, is_table)
-               and isinstance(n.stmt.target, ast.Name)]
-  if len(row_loops) != 1 or len(appends) != 1:
-    raise AnalysisError("fetch_table: expected one loop over <table>.row_ids and one append to the "
-                        "kept ids (found %d, %d)" % (len(row_loops), len(appends)))
+  if len(appends) != 1:
+    raise AnalysisError("fetch_table: expected one append to the kept ids, found %d" % len(appends))
+  # the row loop, by role: the loop whose variable is what gets appended to the kept ids
+  app_arg = appends[0][1].args[0]
+  row_loops = [n.stmt for n in cfg.nodes if n.kind == "for" and isinstance(n.stmt.target, ast.Name)
+               and isinstance(app_arg, ast.Name) and n.stmt.target.id == app_arg.id and
+               _inside(n.stmt, appends[0][1])]
+  if len(row_loops) != 1:
+    enclosing = [n.stmt for n in cfg.nodes if n.kind == "for" and _inside(n.stmt, appends[0][1])]
+    if enclosing and not row_loops:
+      run.ob(R1, fn.qualname, short(appends[0][1]), "what is appended to the kept ids is the "
+             "variable of a loop over the table's rows", False, fi=fn.fi, node=appends[0][1],
+             witness="the appended value is not the variable of any enclosing loop")
+      return
+    raise AnalysisError("fetch_table: the loop whose variable is appended to the kept ids was not "
+                        "found (%d candidates)" % len(row_loops))
+  def is_row_ids(e):
+    return isinstance(e, ast.Attribute) and e.attr == "row_ids" and du.denotes(e.value, is_table)
+  def is_sorted(e):
+    return isinstance(e, ast.Call) and dotted(e.func) == "sorted"
+  src_ok = du.denotes(row_loops[0].iter, is_row_ids)
+  if not src_ok and du.denotes(row_loops[0].iter, lambda e: is_row_ids(e) or is_sorted(e)):
+    raise AnalysisError("fetch_table: rows are visited in an explicitly sorted order; cannot "
+                        "decide that it is row id order")
+  run.ob(R1, fn.qualname, "for %s in %s" % (app_arg.id, short(row_loops[0].iter)),
+         "the rows visited are the table's row ids in their own (ascending) order, on every "
+         "binding of the iterated value", src_ok, fi=fn.fi, node=row_loops[0],
+         witness=None if src_ok else "some binding of the iterated value is not <table>.row_ids")
   rl = row_loops[0]
   rvar = rl.target.id
   (an, ac) = appends[0]
@@ -409,4 +431,6 @@ VARIANTS = [
   ("rowids-descending", T, "      for row_id in range(self._id_column.size()):\n        if self._id_column.raw_get(row_id) > 0:\n          yield row_id",
    "      for row_id in reversed(range(self._id_column.size())):\n        if self._id_column.raw_get(row_id) > 0:\n          yield row_id", "C41-R1"),
   ("append-wrong-var", E, "        row_ids.append(r)", "        row_ids.append(len(row_ids) + 1)", "C41-R1"),
+  ("seed-id-fast-path", E, "    row_ids = []\n    for r in table.row_ids:\n      for (c, values) in query_cols:",
+   "    row_ids = []\n    for r in (table.row_ids if 'id' not in (query or {}) else [x for x in set(query['id']) if x in table.row_ids]):\n      for (c, values) in query_cols:", "C41-R1"),
 ]
